@@ -153,9 +153,24 @@ def adders(ctx, n):
     s3.add_signal(lib.Signal(w, 0.01))
     ctx.claim('add_signal_elementwise', S.sym_and(*[ctx.eq(s3.values[i], v[i] + w[i], 1e3) for i in range(n)]))
     rej = []
-    for bad in (lambda: lib.Signal(v, 0.01).add_series(list(w)[:-1]),
-                lambda: lib.Signal(v, 0.01).add_signal(lib.Signal(w, 0.02)),
-                lambda: lib.Signal(v, 0.01).add_signal(list(w))):
+    wl = list(w)
+    bads = [lambda: lib.Signal(v, 0.01).add_series(wl[:-1]),
+            lambda: lib.Signal(v, 0.01).add_signal(lib.Signal(w, 0.02)),
+            lambda: lib.Signal(v, 0.01).add_signal(wl),
+            # every other length is a mismatch too: longer, length 1 (NumPy would broadcast it), empty, and a
+            # length-1 record receiving a longer series; list, tuple and array operands
+            lambda: lib.Signal(v, 0.01).add_series(wl + [c]),
+            lambda: lib.Signal(v, 0.01).add_series(ctx.np.array(wl + [c])),
+            lambda: lib.Signal(v, 0.01).add_series(tuple(wl[:-1])),
+            lambda: lib.Signal(v, 0.01).add_signal(lib.Signal(ctx.np.array(wl + [c]), 0.01))]
+    if n >= 2:
+        bads += [lambda: lib.Signal(ctx.np.array(wl[:1]), 0.01).add_series(wl[:2]),
+                 lambda: lib.Signal(ctx.np.array(wl[:1]), 0.01).add_signal(lib.Signal(v, 0.01)),
+                 lambda: lib.Signal(v, 0.01).add_series(wl[:1]),
+                 lambda: lib.Signal(v, 0.01).add_series(ctx.np.array(wl[:1])),
+                 lambda: lib.Signal(v, 0.01).add_signal(lib.Signal(ctx.np.array(wl[:1]), 0.01)),
+                 lambda: lib.Signal(v, 0.01).add_series([])]
+    for bad in bads:
         try:
             bad()
             rej.append(False)
@@ -224,7 +239,8 @@ def obligations(tier, seed):
             for level in ('object', 'array'):
                 if n_ > k:
                     yield Ob('detrend', {'n': n_, 'k': k, 'level': level}, query_ms=60000)
-    yield Ob('adders', {'n': 4})
+    for n in (1, 2, 4):
+        yield Ob('adders', {'n': n})
     for n_, widths in (((8, range(1, 8)), (5, (1, 3, 4, 6))) if q else ((8, range(1, 8)), (30, range(1, 26)))):
         for w in widths:
             yield Ob('running', {'n': n_, 'width': w})
